@@ -425,9 +425,23 @@ impl<'a> Binder<'a> {
                         .iter()
                         .enumerate()
                         .map(|(i, e)| {
-                            let dt = e
+                            let mut dt = e
                                 .data_type(&PlanSchema::empty())
                                 .unwrap_or(ArrowDataType::Utf8);
+                            // A NULL in the first row says nothing about the column:
+                            // take the type of the first later row that has one.
+                            if dt == ArrowDataType::Null {
+                                for later in rows.iter().skip(1) {
+                                    if let Some(Ok(t)) =
+                                        later.get(i).map(|x| x.data_type(&PlanSchema::empty()))
+                                    {
+                                        if t != ArrowDataType::Null {
+                                            dt = t;
+                                            break;
+                                        }
+                                    }
+                                }
+                            }
                             SchemaField::new(format!("column{}", i), dt)
                         })
                         .collect();
